@@ -612,6 +612,8 @@ func hostileScripts(r *rep.Report, e rep.Env, via string) {
 		"throw {toString: function(){ throw 1 }}", "throw {valueOf: function(){ return {} }, toString: function(){ return {} }}", "throw null", "throw undefined",
 		// values JSON cannot render: as a result, and written into a fact the canary's search meets
 		"0/0", "1/0", "[1, -1/0]", "({n: 0/0})", "Env.AddFact('nf', {canaryn: 0/0})", "Env.AddFact('nf', {canaryn: [1/0]})", "Env.AddFact('canary-fact', {canaryn: -1/0})",
+		// values that contain themselves: as the result, and handed to the functions the engine offers
+		"var a = {}; a.self = a; a", "var a = []; a[0] = a; a", "var a = {b: {}}; a.b.up = a; Env.AddFact('cyc', a)", "var a = {}; a.self = a; Env.log(a)", "var a = {}; a.self = a; Env.Search(a)", "var a = {}; a.self = a; Env.match(a, a)", "var a = {when: {}}; a.when.pattern = a; Env.AddRule('cyc', a)", "var a = {}; a.self = a; Env.ProcessEvent(a)", "var a = {}; a.self = a; Env.Query(a)", "var a = {}; a.self = a; Env.out(a)",
 		"Env.out()", "Env.bindings.x.y.z", "Env.secsFromNow()", "Env.secsFromNow('soon')", "Env.encode()", "Env.gensym(5)", "Env.exit()", "Env.log()",
 	}
 	for half := 0; half < 2; half++ {
